@@ -334,8 +334,12 @@ func (rep *Report) classify(all []*Obligation, rebase, verbose bool) {
 			known[f.Obligation] = f
 		}
 	}
-	basePath := filepath.Join(verifDir, "baseline", id+".txt")
-	unclPath := filepath.Join(verifDir, "baseline", id+".unclaimed")
+	basePath := filepath.Join(verifDir, "baseline", id+"."+rep.Tier+".txt")
+	unclPath := filepath.Join(verifDir, "baseline", id+"."+rep.Tier+".unclaimed")
+	slowLimit := 2.7
+	if rep.Tier == "thorough" {
+		slowLimit = 20
+	}
 	base := loadNameSet(basePath)
 	uncl := loadNameSet(unclPath)
 	unclFK := map[string]bool{}
@@ -351,6 +355,16 @@ func (rep *Report) classify(all []*Obligation, rebase, verbose bool) {
 		}
 		seenNames[o.Name] = true
 		rep.SolverTime += o.Res.Time
+		if o.Res.Status == "unsat" && rebase && o.Res.Time > slowLimit {
+			// too slow to be claimed at this tier (claim threshold: a third of the timeout)
+			newUncl = append(newUncl, o.Name)
+			rep.Unclaimed = append(rep.Unclaimed, fmt.Sprintf("%s (discharged in %.1fs, above the claim threshold)", o.Name, o.Res.Time))
+			continue
+		}
+		if o.Res.Status == "unsat" && !rebase && uncl[o.Name] {
+			rep.Unclaimed = append(rep.Unclaimed, fmt.Sprintf("%s (discharged in %.1fs, not claimed at this tier)", o.Name, o.Res.Time))
+			continue
+		}
 		if o.Res.Status == "unsat" {
 			rep.Obligations++
 			rep.Discharged++
